@@ -58,6 +58,68 @@ def run_row(fname, ks):
     return ps, out, g
 
 
+def _run_params(fname, ps):
+    """the functionals of run_row on three given parameter tensors that all influence the function (product form)"""
+    ks = ["tg", "tg", "tg"]
+    if fname == "rootfinder":
+        return xitorch.optimize.rootfinder(lambda y, *p: y - 0.3 * torch.tanh(y) - _use(ks, p), torch.zeros(2, dtype=DT), params=ps)
+    if fname == "equilibrium":
+        return xitorch.optimize.equilibrium(lambda y, *p: 0.3 * torch.tanh(y) + _use(ks, p), torch.zeros(2, dtype=DT), params=ps)
+    if fname == "minimize":
+        return xitorch.optimize.minimize(lambda y, *p: (0.5 * (y - _use(ks, p)) ** 2 + 0.1 * torch.log(torch.cosh(y))).sum(), torch.zeros(2, dtype=DT), params=ps)
+    if fname == "solve_ivp":
+        return xitorch.integrate.solve_ivp(lambda t, y, *p: -y * _use(ks, p), torch.linspace(0.0, 0.5, 3, dtype=DT), torch.ones(2, dtype=DT), params=ps, method="rk4")
+    if fname == "quad":
+        return xitorch.integrate.quad(lambda x, *p: torch.sin(x * _use(ks, p)).reshape(1), torch.tensor(0.1, dtype=DT), torch.tensor(0.9, dtype=DT), params=ps, n=6)
+    if fname == "mcquad":
+        return xitorch.integrate.mcquad(lambda x, *p: x.sum() * _use(ks, p) + torch.zeros(1, dtype=DT), lambda x, *p: (-0.5 * (x - 0.1 * _use(ks, p)) ** 2).sum(),
+                                        torch.zeros(1, dtype=DT), fparams=ps, pparams=ps, method="mhcustom", nsamples=4, nburnout=2, custom_step=lambda x, *p: x * 0.5 + 0.3)
+    raise ValueError(fname)
+
+
+def dependent_rows(ctx, functionals, prefix):
+    """Parameters computed from one another (p2 = 2 p1 + 0.1, p3 = p1 p2 passed next to p1): the gradient w.r.t. the leaf is the TOTAL
+    derivative.  Reference: the same functional on three independent leaves of the same values, combined by the chain rule
+    (independent parameters are verified against closed forms elsewhere); with and without graph recording, and to second order."""
+    n = 0
+    with warnings.catch_warnings():
+        warnings.simplefilter("ignore")
+        for fname in functionals:
+            for cg in (False, True):
+                n += 1
+                ctx.case(key=("dependent-params", fname, cg))
+                why = None
+                try:
+                    p1 = torch.tensor(0.7, dtype=DT, requires_grad=True)
+                    p2 = 2.0 * p1 + 0.1
+                    p3 = p1 * p2
+                    out = _run_params(fname, (p1, p2, p3))
+                    w = torch.cos(torch.arange(out.numel(), dtype=DT) + 0.3).reshape(out.shape)
+                    gA, = torch.autograd.grad((out * w).sum(), [p1], create_graph=cg)
+                    q = [torch.tensor(float(v), dtype=DT, requires_grad=True) for v in (p1, p2, p3)]
+                    outB = _run_params(fname, tuple(q))
+                    gB = torch.autograd.grad((outB * w).sum(), q, create_graph=True)
+                    # dp2/dp1 = 2, dp3/dp1 = p2 + 2 p1
+                    tot = gB[0] + 2.0 * gB[1] + (q[1] + 2.0 * q[0]) * gB[2]
+                    if not torch.allclose(out, outB, atol=1e-10):
+                        why = "value differs between dependent and independent parameters of the same values"
+                    elif not torch.allclose(gA, tot.detach(), atol=1e-8, rtol=1e-7):
+                        why = "gradient w.r.t. the leaf is %.10f, total derivative by the chain rule %.10f" % (float(gA), float(tot))
+                    elif cg:
+                        hA, = torch.autograd.grad(gA, [p1])
+                        hB = torch.autograd.grad(tot, q, allow_unused=True)
+                        hB = [x if x is not None else torch.zeros((), dtype=DT) for x in hB]
+                        htot = hB[0] + 2.0 * hB[1] + (q[1] + 2.0 * q[0]).detach() * hB[2]
+                        if not torch.allclose(hA, htot, atol=1e-7, rtol=1e-6):
+                            why = "second derivative w.r.t. the leaf is %.10f, by the chain rule %.10f" % (float(hA), float(htot))
+                except Exception as e:
+                    why = "raised %s: %s" % (type(e).__name__, str(e)[:140])
+                if why:
+                    ctx.violation("%s/dependent-params/%s" % (prefix, fname), "%s with parameters (p1, 2 p1 + 0.1, p1 p2) computed from one leaf, backward %s graph recording: %s"
+                                  % (fname, "with" if cg else "without", why), {"f": fname, "create_graph": cg})
+    return n
+
+
 def replay(ctx, functionals, prefix):
     c = dict(Functionals=set(functionals), Len3=3)
     t, cf = tlcmod.gen_mc(ctx.work, "GradPattern", "MC_GradPattern", c, invariants=["NeverRaises", "OnlyDifferentiableGetGradients"])
@@ -95,4 +157,4 @@ def replay(ctx, functionals, prefix):
             if why:
                 ctx.violation("%s/gradpattern/%s" % (prefix, fname), "%s with extra parameters of kinds %s (tg: tensor requiring grad, tu: unused tensor requiring grad, tn: tensor without grad, num: number): %s"
                               % (fname, ks, why), {"f": fname, "ks": ks})
-    return n
+    return n + dependent_rows(ctx, functionals, prefix)
